@@ -4,8 +4,9 @@ import PdtVerif.Spec.Recoverable
 /-! Driver for C16: replays a crash schedule on the checkpoint model.
 
 case: {quirks: "fixed"|"pinned", keep_lb, mkeys: [key of epoch 0..], okeys: [..],
-       vals: [int|null ..]  (metric that decides "best", epoch 1..n),
-       sched: [{epoch, k, torn, rm: [[kind,key]..]} ..]}   -- one killed session each
+       metrics: [[train|null, val|null] ..]  (epoch 1..n), best_is_train  (`deciding` picks the column),
+       sched: [{epoch, k, torn, rm: [[kind,key]..]} ..]}   -- one killed session each; `torn`: call k
+                                                            -- is executed half-way (`tornDisk tear`)
 reply: {sessions: [..], final: ..} — see `sessionJ`.
 
 Glue only: the model functions (`planUpdate`, `exec`, `startSession`, `recorded`, `loadState`) and
@@ -28,6 +29,7 @@ def contentJ : Content → Json
 def lineJ : Line → Json
   | .header => strJ "header"
   | .row e => natJ e
+  | .torn => strJ "torn"
 
 def opJ : FsOp → Json
   | .mkdirs => Json.arr #[strJ "mkdirs"]
@@ -35,7 +37,7 @@ def opJ : FsOp → Json
   | .write t _ => Json.arr #[strJ "write", strJ "tmp", natJ t]
   | .replace t dst => Json.arr ((#[strJ "replace", strJ "tmp", natJ t]) ++ (pathJ dst).toArray)
   | .openAppend => Json.arr #[strJ "open_a"]
-  | .flush ls => Json.arr #[strJ "flush", listJ lineJ ls]
+  | .hwrite l => Json.arr #[strJ "hwrite", lineJ l]
   | .remove p => Json.arr ((#[strJ "remove"]) ++ (pathJ p).toArray)
 
 def diskJ (d : Disk) : Json :=
@@ -106,10 +108,7 @@ def loopS (c : Cfg) (crash : Option CrashIn) : Nat → Nat → Nat × Nat → Di
         let hintOk := ci.hint.all (fun p => cl.contains p)
         if ci.i < ops.length then
           let pre := ops.take ci.i
-          let d' := exec d pre
-          let d'' := match ci.torn, ops[ci.i]? with
-            | true, some (.write t _) => exec1 d' (.write t .torn)
-            | _, _ => d'
+          let d'' := if ci.torn then tornDisk tear d ops ci.i else exec d pre
           { status := "crashed", atEpoch := some e, trace := pre, updates := ups.reverse,
             hintOk := hintOk, disk := d'' }
         else
@@ -159,6 +158,15 @@ def parseCrash (j : Json) : Except String CrashIn := do
     | some h => jsonToList parsePath h
   pure ⟨e, i, torn, hint⟩
 
+def parsePair (j : Json) : Except String (Option Int × Option Int) := do
+  let a ← j.getArr?
+  match a.toList with
+  | [t, v] => do
+    let t ← jsonToOption jsonToInt t
+    let v ← jsonToOption jsonToInt v
+    pure (t, v)
+  | _ => throw "bad metric pair"
+
 def keyFn (l : List Nat) : Nat → Nat := fun e => l.getD e e
 
 def parseCfg (c : Json) : Except String Cfg := do
@@ -170,8 +178,9 @@ def parseCfg (c : Json) : Except String Cfg := do
   let keep ← getBool c "keep_lb"
   let mk ← getNatList c "mkeys"
   let ok ← getNatList c "okeys"
-  let vals ← getList (jsonToOption jsonToInt) c "vals"
-  pure ⟨Q, ⟨keep, keyFn mk, keyFn ok⟩, vals⟩
+  let bit ← getBool c "best_is_train"
+  let ms ← getList parsePair c "metrics"
+  pure ⟨Q, ⟨keep, keyFn mk, keyFn ok⟩, deciding bit ms⟩
 
 def c16Run : Handler := fun j => do
   let c ← parseCfg j
